@@ -25,7 +25,16 @@ def main():
     mod = importlib.import_module('mc.props.%s' % a.prop.lower())
     if a.replay:
         rec = json.load(open(a.replay))
-        vs = mod.replay(rec['case'])
+        rc = rec['case']
+        core.CONTEXT.clear()
+        if isinstance(rc, dict):
+            # how the objects of this case came into being (provenance / module settings) is part of the case
+            for ck in core.CONTEXT_KEYS:
+                if rc.get(ck):
+                    core.CONTEXT[ck] = rc[ck]
+            rc = {k: x for k, x in rc.items() if k not in core.CONTEXT_KEYS}
+        with core.module_settings(core.CONTEXT.get('module')):
+            vs = mod.replay(rc)
         same = [v for v in vs if v['clause'] == rec['clause']]
         for v in vs:
             print('replay: clause=%s observed=%s expected=%s detail=%s' % (
